@@ -72,6 +72,16 @@ def r1_rows(repo, report):
             cur = chain(adv[0].targets[0])
             facts = {"inner_iterates": src(inner[0].iter), "advance": src(adv[0]), "advance_in": "outer loop" if adv[0] in o.body else "elsewhere"}
             ok = src(inner[0].iter) == f"{mv}.get_info_records({cur})" and [src(a) for a in adv[0].value.args] == [cur] and adv[0] in o.body and o.body.index(adv[0]) > o.body.index(inner[0])
+    if ok:
+        # inside the per-match loop the current record changes ONLY through the advance: in particular the orientation
+        # (--revcomp) is applied once, before the loop, not once per match
+        cur = chain(adv[0].targets[0])
+        other = [src(n) for n in ast.walk(outer[0]) if isinstance(n, (ast.Assign, ast.AugAssign)) and n is not adv[0] and chain(n.targets[0] if isinstance(n, ast.Assign) else n.target) == cur]
+        facts["other_updates_in_loop"] = other
+        rc = [n for n in ast.walk(fn) if isinstance(n, ast.Call) and isinstance(n.func, ast.Attribute) and n.func.attr == "reverse_complement"]
+        in_loop = [src(x) for x in rc if x in list(ast.walk(outer[0]))]
+        facts["reverse_complement_calls"] = {"total": len(rc), "inside_match_loop": in_loop}
+        ok = not other and not in_loop and len(rc) <= 1
     report.ob("C17.R2", "InfoFileWriter: one advance per match, after its rows", ok, facts=facts, expected="for match in info.matches: [rows of match.get_info_records(current)]; current = match.trimmed(current)", loc=repo.loc(fn),
               why="" if ok else "the record for later rounds is not 'what the previous match left' exactly once per match")
 
